@@ -2,6 +2,8 @@ import RasnModel.Lexer.Values
 import RasnModel.Spec.Values
 import RasnModel.Proofs.Values
 import RasnModel.Proofs.GenValues
+import RasnModel.Proofs.TsStrings
+import RasnModel.Proofs.Octets
 /-
   C07 — value assignments and DEFAULTs denote the source abstract value (leaf conversions).
   `hexToBools` and `wellKnown` are REGENERATED from /repo on every run. Composite values
@@ -81,9 +83,7 @@ theorem C07_octets_bits_roundtrip (o : List Nat) (h : ∀ b ∈ o, b < 256) :
       cases hn : natToBits 8 b with
       | nil => rw [hn] at hl; simp at hl
       | cons x xs => rfl
-    have hlen : ¬ (natToBits 8 b ++ List.flatMap (natToBits 8) t).length < 8 := by
-      simp only [List.length_append, hl]; omega
-    simp only [hne, hlen, if_false, Bool.false_eq_true]
+    simp only [hne, if_false, Bool.false_eq_true]
     have hd : (natToBits 8 b ++ List.flatMap (natToBits 8) t).drop 8 = List.flatMap (natToBits 8) t := by
       rw [List.drop_append_of_le_length (by omega)]
       simp [List.drop_of_length_le (by omega : (natToBits 8 b).length ≤ 8)]
@@ -447,5 +447,44 @@ example :
     renderAssignment, wrapName, nest]
 
 end Rendering
+
+/-! ### character string constants of the TypeScript backend (`Ts/Strings`) -/
+section TsStrings
+open Ts.Strings
+
+/-- **C07 (TypeScript strings).** For every character string — quotes, backslashes, line breaks, any other
+    character, any length — the literal `string_literal` prints reads back, as an ECMAScript double-quoted literal,
+    as exactly that string, and ends exactly at its closing quote (whatever follows). -/
+theorem C07_ts_string_literal_exact (s rest : List Char) : readLiteral (stringLiteral s ++ rest) = some (s, rest) :=
+  readLiteral_stringLiteral s rest
+
+/-- the ninth-round seed as a counterexample: escaping `"` before `\` turns the string `"` into a literal that reads
+    as a backslash and ends early -/
+theorem C07_ts_chained_escape_counterexample :
+    readLiteral ('"' :: (escapeChained ['"'] ++ ['"'])) = some (['\\'], ['"']) := by decide
+
+example : stringLiteral ['a', '"', '\\', '\n'] = ['"', 'a', '\\', '"', '\\', '\\', '\\', 'n', '"'] := by decide
+
+end TsStrings
+
+/-! ### OCTET STRING values given as bstring / hstring of any length -/
+section Octets
+open Spec.Values
+
+/-- **C07 (octet strings, any number of bits).** For every bit list the bstring / hstring scanner can hand over —
+    whether or not it fills its last octet — the linker's conversion yields exactly the octets X.680 23.3 gives the
+    notation (bits taken eight at a time, zero bits added at the end). FULL since fix `f216731`. -/
+theorem C07_octet_value_exact (f : Nat) (bits : List Bool) (h : bits.length ≤ 8 * f) :
+    bitsToOctets (f + 1) bits = some (octetsOfBits (f + 1) bits) :=
+  bitsToOctets_padded f bits h
+
+/-- the conversion as it was: `'F'H` for an OCTET STRING was refused (and the value stayed a BIT STRING constant behind a
+    warning that names no definition), where X.680 reads the octet F0 -/
+theorem C07_old_partial_octet_counterexample :
+    bitsToOctetsOld 2 (bitStringValue 'H' ['F']) = none ∧ octetsOfBits 2 (hstringBits ['F']) = [240] := by decide
+
+example : bitsToOctets 3 (bitStringValue 'H' ['A', 'B', 'C']) = some [171, 192] := by decide
+
+end Octets
 
 end Props.C07
